@@ -111,7 +111,7 @@ func runC01(r *vc.Run, replay string) {
 		"no foreign writer touches the rows (that is C09)"}
 	cfgs := []atUndoCfg{
 		{Serializer: "json", Compress: "None", Validation: true, OnlyCare: true},
-		{Serializer: "json", Compress: "None", Validation: true, OnlyCare: false},
+		{Serializer: "json", Compress: "None", Validation: true, OnlyCare: false, Loc: "America/Bogota"},
 		{Serializer: "json", Compress: "None", Validation: false, OnlyCare: true},
 		{Serializer: "json", Compress: "Gzip", CompressOn: true, Validation: true, OnlyCare: false, Threshold: "1"},
 	}
@@ -120,7 +120,7 @@ func runC01(r *vc.Run, replay string) {
 		n = 600
 		for _, ser := range []string{"json", "protobuf"} {
 			for _, comp := range []string{"None", "Gzip", "Zip", "Bzip2", "Lz4", "Deflate", "Zstd"} {
-				cfgs = append(cfgs, atUndoCfg{Serializer: ser, Compress: comp, CompressOn: comp != "None", Validation: true, OnlyCare: ser == "json", Threshold: "1"})
+				cfgs = append(cfgs, atUndoCfg{Serializer: ser, Compress: comp, CompressOn: comp != "None", Validation: true, OnlyCare: ser == "json", Threshold: "1", Loc: map[bool]string{true: "America/Bogota", false: ""}[comp == "Zip" || comp == "None"]})
 			}
 		}
 	}
